@@ -675,6 +675,12 @@ JANET_CORE_FN(cfun_net_listen,
     JSock sfd = JSOCKDEFAULT;
 #ifndef JANET_WINDOWS
     if (is_unix) {
+        /* Binding to a path (as opposed to an abstract name) creates a file system entry */
+        if (((struct sockaddr_un *) ai)->sun_path[0] != '\0' &&
+                (janet_vm.sandbox_flags & JANET_SANDBOX_FS_WRITE)) {
+            janet_free(ai);
+            janet_sandbox_assert(JANET_SANDBOX_FS_WRITE);
+        }
         sfd = socket(AF_UNIX, socktype | JSOCKFLAGS, 0);
         if (!JSOCKVALID(sfd)) {
             janet_free(ai);
